@@ -621,7 +621,9 @@ def run(ctx):
         "retained bytes = len(_partial) + sum(len(_payload_fragments)) + len(_tail) <= max_msg_size + 125 (an interleaved control frame) + 14 (one header)",
     ]
     jobs = []
-    for cfg in (CONFIGS[:5] if ctx.quick else CONFIGS):
+    # (the default-size configuration, max_msg_size 4 MiB, takes part in the history and negotiation sections only: its
+    # size tokens are megabytes long and cannot be cut everywhere)
+    for cfg in (CONFIGS[:5] if ctx.quick else CONFIGS[:6]):
         T = tokens(cfg)
         big = cfg["max_msg_size"] == 0 or cfg["max_msg_size"] > 1000
         d2 = [s for s in sequences(T, 2)]
